@@ -44,18 +44,22 @@ Record state := mkS {
   maxgen  : Z;               (* maxGenSize *)
   esz     : Z;               (* Cache.entrySize *)
   ret     : list Z;          (* numbers returned by the last maintenance call *)
-  pendrel : option (list nat)(* toDelete of a ReleaseBuckets call between its two halves *)
+  pendrel : option (list nat);(* toDelete of a ReleaseBuckets call between its two halves *)
+  maxpay  : list nat;        (* Cache.maxPayloadSize, per cache *)
+  nrec    : Z                (* number of payload maps re-created so far (metric MapsRecreated) *)
 }.
 
-Definition set_entries st x := mkS x (threads st) (caches st) (gens st) (listed st) (buckets st) (lastgen st) (limit st) (maxgen st) (esz st) (ret st) (pendrel st).
-Definition set_threads st x := mkS (entries st) x (caches st) (gens st) (listed st) (buckets st) (lastgen st) (limit st) (maxgen st) (esz st) (ret st) (pendrel st).
-Definition set_caches st x := mkS (entries st) (threads st) x (gens st) (listed st) (buckets st) (lastgen st) (limit st) (maxgen st) (esz st) (ret st) (pendrel st).
-Definition set_gens st x := mkS (entries st) (threads st) (caches st) x (listed st) (buckets st) (lastgen st) (limit st) (maxgen st) (esz st) (ret st) (pendrel st).
-Definition set_listed st x := mkS (entries st) (threads st) (caches st) (gens st) x (buckets st) (lastgen st) (limit st) (maxgen st) (esz st) (ret st) (pendrel st).
-Definition set_buckets st x := mkS (entries st) (threads st) (caches st) (gens st) (listed st) x (lastgen st) (limit st) (maxgen st) (esz st) (ret st) (pendrel st).
-Definition set_lastgen st x := mkS (entries st) (threads st) (caches st) (gens st) (listed st) (buckets st) x (limit st) (maxgen st) (esz st) (ret st) (pendrel st).
-Definition set_ret st x := mkS (entries st) (threads st) (caches st) (gens st) (listed st) (buckets st) (lastgen st) (limit st) (maxgen st) (esz st) x (pendrel st).
-Definition set_pendrel st x := mkS (entries st) (threads st) (caches st) (gens st) (listed st) (buckets st) (lastgen st) (limit st) (maxgen st) (esz st) (ret st) x.
+Definition set_entries st x := mkS x (threads st) (caches st) (gens st) (listed st) (buckets st) (lastgen st) (limit st) (maxgen st) (esz st) (ret st) (pendrel st) (maxpay st) (nrec st).
+Definition set_threads st x := mkS (entries st) x (caches st) (gens st) (listed st) (buckets st) (lastgen st) (limit st) (maxgen st) (esz st) (ret st) (pendrel st) (maxpay st) (nrec st).
+Definition set_caches st x := mkS (entries st) (threads st) x (gens st) (listed st) (buckets st) (lastgen st) (limit st) (maxgen st) (esz st) (ret st) (pendrel st) (maxpay st) (nrec st).
+Definition set_gens st x := mkS (entries st) (threads st) (caches st) x (listed st) (buckets st) (lastgen st) (limit st) (maxgen st) (esz st) (ret st) (pendrel st) (maxpay st) (nrec st).
+Definition set_listed st x := mkS (entries st) (threads st) (caches st) (gens st) x (buckets st) (lastgen st) (limit st) (maxgen st) (esz st) (ret st) (pendrel st) (maxpay st) (nrec st).
+Definition set_buckets st x := mkS (entries st) (threads st) (caches st) (gens st) (listed st) x (lastgen st) (limit st) (maxgen st) (esz st) (ret st) (pendrel st) (maxpay st) (nrec st).
+Definition set_lastgen st x := mkS (entries st) (threads st) (caches st) (gens st) (listed st) (buckets st) x (limit st) (maxgen st) (esz st) (ret st) (pendrel st) (maxpay st) (nrec st).
+Definition set_ret st x := mkS (entries st) (threads st) (caches st) (gens st) (listed st) (buckets st) (lastgen st) (limit st) (maxgen st) (esz st) x (pendrel st) (maxpay st) (nrec st).
+Definition set_maxpay st x := mkS (entries st) (threads st) (caches st) (gens st) (listed st) (buckets st) (lastgen st) (limit st) (maxgen st) (esz st) (ret st) (pendrel st) x (nrec st).
+Definition set_nrec st x := mkS (entries st) (threads st) (caches st) (gens st) (listed st) (buckets st) (lastgen st) (limit st) (maxgen st) (esz st) (ret st) (pendrel st) (maxpay st) x.
+Definition set_pendrel st x := mkS (entries st) (threads st) (caches st) (gens st) (listed st) (buckets st) (lastgen st) (limit st) (maxgen st) (esz st) (ret st) x (maxpay st) (nrec st).
 
 (* ------------------------------------------------------------------ list helpers *)
 Fixpoint upd {A} (i : nat) (f : A -> A) (l : list A) : list A :=
@@ -118,9 +122,11 @@ Record variant := mkV {
   v_recover_own : bool;    (* 290ab18: recover deletes payload[key] only if it is the creator's own entry *)
   v_save_rehome : bool;    (* b9905fa: save sets e.gen = c.currentGeneration *)
   v_release_fixed : bool;  (* 9ff7c19: ReleaseBuckets walks the released indices from the highest down *)
-  v_add_locked : bool      (* save does gen.size.Add(size) before c.mu.Unlock() (repair after the hook commit 64b20cb) *)
+  v_add_locked : bool;     (* save does gen.size.Add(size) before c.mu.Unlock() (repair after the hook commit 64b20cb) *)
+  v_rebuild_all : bool     (* recreatePayload copies EVERY entry into the new map (false: a seeded regression that
+                              skipped entries with wg != nil, i.e. also entries that are still loading) *)
 }.
-Definition repaired := mkV true true true true.
+Definition repaired := mkV true true true true true.
 
 (* Cache.recover: `if c.payload[key] == e { delete(c.payload, key) }` (before 290ab18: delete by key,
    whatever entry is there now), then wg.Done() on the creator's own (still wg != nil, i.e. abandoned) entry *)
@@ -239,9 +245,38 @@ Definition clean_begin (st : state) : state :=
 (* Cache.Cleanup of cache c *)
 Definition stale_in (c : nat) (gs : list gen) (e : entry) : bool :=
   eattached e && Nat.eqb (ecache e) c && gst (egen e) gs.
+Definition in_cache (c : nat) (e : entry) : bool := eattached e && Nat.eqb (ecache e) c.
+Definition delete_stale_in (c : nat) (gs : list gen) (e : entry) : entry :=
+  if stale_in c gs e then delete_stale e else e.
+Definition count_in (c : nat) (es : list entry) : nat := length (filter (in_cache c) es).
+Definition recreate_threshold := 200%nat.
+Definition excessive_factor := 10%nat.
+(* recreatePayload's copy loop `for k, v := range c.payload { newPayload[k] = v }`: every entry of the cache is
+   put into the new map (all = false: entries with wg != nil are skipped) *)
+Definition rebuild_entry (all : bool) (c : nat) (e : entry) : entry :=
+  if in_cache c e
+  then (if all || match estat e with EValid => true | _ => false end then e else detach e)
+  else e.
+(* Cache.Cleanup: maxPayloadSize = max(maxPayloadSize, len(payload)); delete the entries of stale generations;
+   recreatePayload (map rebuilt when it once held >= 200 entries and now holds <= a tenth of that) *)
+Definition clean_cache_v (var : variant) (c : nat) (st : state) : state :=
+  let freed := zsum (map (fun e => if stale_in c (gens st) e then esize e else 0) (entries st)) in
+  let mp1 := Nat.max (nth c (maxpay st) 0%nat) (count_in c (entries st)) in
+  let es1 := map (delete_stale_in c (gens st)) (entries st) in
+  let n1 := count_in c es1 in
+  if Nat.ltb mp1 recreate_threshold || Nat.ltb mp1 (n1 * excessive_factor)
+  then set_ret (set_maxpay (set_entries st es1) (upd c (fun _ => mp1) (maxpay st))) [freed]
+  else let es2 := map (rebuild_entry (v_rebuild_all var) c) es1 in
+       set_ret (set_nrec (set_maxpay (set_entries st es2) (upd c (fun _ => count_in c es2) (maxpay st))) (nrec st + 1)) [freed].
+(* the same with the rebuild as the identity (= clean_cache_v repaired, lemma clean_cache_v_repaired) *)
 Definition clean_cache (c : nat) (st : state) : state :=
   let freed := zsum (map (fun e => if stale_in c (gens st) e then esize e else 0) (entries st)) in
-  set_ret (set_entries st (map (fun e => if stale_in c (gens st) e then delete_stale e else e) (entries st))) [freed].
+  let mp1 := Nat.max (nth c (maxpay st) 0%nat) (count_in c (entries st)) in
+  let es1 := map (delete_stale_in c (gens st)) (entries st) in
+  let n1 := count_in c es1 in
+  let keep := Nat.ltb mp1 recreate_threshold || Nat.ltb mp1 (n1 * excessive_factor) in
+  set_ret (set_nrec (set_maxpay (set_entries st es1) (upd c (fun _ => if keep then mp1 else n1) (maxpay st)))
+                    (if keep then nrec st else nrec st + 1)) [freed].
 
 (* Cleaner.CleanEmptyGenerations *)
 Definition gc_gens (st : state) : state :=
@@ -250,7 +285,6 @@ Definition gc_gens (st : state) : state :=
   set_ret (set_listed st keep) [Z.of_nat (length l - length keep)].
 
 (* Cache.Release *)
-Definition in_cache (c : nat) (e : entry) : bool := eattached e && Nat.eqb (ecache e) c.
 Fixpoint release_sub (c : nat) (es : list entry) (gs : list gen) : list gen :=
   match es with
   | [] => gs
@@ -316,7 +350,8 @@ Definition rel_remove (var : variant) (st : state) : option state :=
 
 (* NewCache(cleaner) = AddBucket: SetGeneration(lastGen), append *)
 Definition new_cache (st : state) : state :=
-  set_buckets (set_caches st (caches st ++ [mkC (lastgen st) false])) (buckets st ++ [length (caches st)]).
+  set_maxpay (set_buckets (set_caches st (caches st ++ [mkC (lastgen st) false])) (buckets st ++ [length (caches st)]))
+             (maxpay st ++ [0%nat]).
 
 (* ------------------------------------------------------------------ labels, steps, runs *)
 Inductive label :=
@@ -339,7 +374,7 @@ Definition step_v (var : variant) (st : state) (l : label) : option state :=
   | LRelease c => if Nat.ltb c (length (caches st)) then Some (release c st) else None
   | LRotate => Some (do_rotate st)
   | LCleanBegin => Some (clean_begin st)
-  | LCleanCache c => Some (clean_cache c st)
+  | LCleanCache c => Some (clean_cache_v var c st)
   | LGcGens => Some (gc_gens st)
   | LRelCollect => Some (rel_collect st)
   | LRelRemove => rel_remove var st
@@ -356,7 +391,7 @@ Definition run := run_v repaired.
 
 (* NewCleaner(limit): one generation, listed, last *)
 Definition init (lim mg es : Z) : state :=
-  mkS [] [] [] [mkG 0 false] [0%nat] [] 0%nat lim mg es [] None.
+  mkS [] [] [] [mkG 0 false] [0%nat] [] 0%nat lim mg es [] None [] 0.
 
 (* ------------------------------------------------------------------ domain of the accounting theorems:
    a monitor evaluated before a step. One pattern is excluded:
@@ -394,6 +429,8 @@ Fixpoint race_free (st : state) (ls : list label) : bool :=
 Inductive ev :=
 | ECall (c k : nat) (o : outcome)
 | EResume (t : nat)
+| EFill (c k0 n : nat) (v0 sz : Z)  (* n sequential Get calls for the keys k0, k0+1, ... with loader values v0, v0+1, ...
+                                       and size sz, each running to completion before the next *)
 | EResumeSave (t : nat)  (* the loader of t returns a value; t runs save up to (not including) gen.size.Add: it is
                             parked at the schedule point verifhook.At("cache.save.after-unlock"); waiters wake up *)
 | EAdd (t : nat)         (* t, parked there, does its gen.size.Add and returns *)
@@ -452,6 +489,28 @@ Fixpoint clean_all (bk : list nat) (st : state) (bytes cleaned : Z) : option (st
               end
   end.
 
+Fixpoint fill (n c k : nat) (v sz : Z) (st : state) : option state :=
+  match n with
+  | O => Some st
+  | S m =>
+      let t := length (threads st) in
+      match step st (LSpawn c k (OVal v sz)) with
+      | Some st1 =>
+          match step st1 (LStep t) with
+          | Some st2 =>
+              match thread_pc st2 t with
+              | Some (PLoad _) => match run_thread 3 st2 t with
+                                  | Some st3 => fill m c (S k) (v + 1) sz st3
+                                  | None => None
+                                  end
+              | _ => fill m c (S k) (v + 1) sz st2
+              end
+          | None => None
+          end
+      | None => None
+      end
+  end.
+
 Definition exec_ev (st : state) (e : ev) : option (state * list Z) :=
   match e with
   | ECall c k out =>
@@ -472,6 +531,7 @@ Definition exec_ev (st : state) (e : ev) : option (state * list Z) :=
           end
       | _ => None
       end
+  | EFill c k0 n v0 sz => match fill n c k0 v0 sz st with Some st' => Some (st', []) | None => None end
   | EResumeSave t =>
       match thread_pc st t with
       | Some (PLoad e) =>
@@ -501,7 +561,7 @@ Definition exec_ev (st : state) (e : ev) : option (state * list Z) :=
       | Some st1 =>
           match ret st1 with
           | 1 :: rest => match clean_all (buckets st) st1 0 0 with
-                         | Some (st2, bytes, cleaned) => Some (st2, 1 :: rest ++ [bytes; cleaned])
+                         | Some (st2, bytes, cleaned) => Some (st2, 1 :: rest ++ [bytes; cleaned; nrec st2])
                          | None => None
                          end
           | r => Some (st1, r)
